@@ -24,6 +24,7 @@ import SpoxModel.Props.C01Build
 #print axioms C01.needed_part_decides_values
 #print axioms C01.needed_part_decides_values_checked
 #print axioms C01.needed_part_decides_denotation
+#print axioms C01.needed_part_decides_denotation_args
 #print axioms C01.other_request_same_values
 #print axioms C01.more_outputs_irrelevant
 #print axioms C01.default_and_drop_builds_agree
